@@ -9,8 +9,11 @@ import GdVerif.Props.C02_whole
   (`Spec/ValveFaults.lean`): for each of the three units a list of attempts that end in a timeout-class failure —
   after `answered` challenge rounds the server falls silent, or the client's next send fails (`answered = 0`: the fault
   hits the initial request; `answered = number of challenge rounds`: it hits the last exchange of the attempt; anything
-  in between is covered too) — followed by the unit's valid exchange, by nothing (the client has given up), or by a
-  malformed datagram.  `faultyScript` / `faultyFaults` are the two arguments of `Net.init`: exactly what
+  in between is covered too); before it falls silent the server may still deliver SOME of the fragments of the unit's
+  split reply (`Attempt.got`: any selection of the reply's datagrams, each at most once, in any order, at least one
+  missing — `Faults.partOf`; a reply that stops half way: the attempt is a timeout like any other, the next attempt starts
+  from scratch) — followed by the unit's valid exchange, by nothing (the client has given up), or by a malformed datagram
+  (possibly after some of the fragments).  `faultyScript` / `faultyFaults` are the two arguments of `Net.init`: exactly what
   `props/families/valve.py: c10_build` builds for the differential check, which is now compared against these SPEC
   functions (driver entry `valveplan`, `Run/ValveFaults.lean`: script, flags, result and sends must all agree).
 
@@ -32,7 +35,9 @@ theorem C10_valve_decoders_law (ext : Ext) (compress : Bytes → Bytes) (hlaw : 
 
 /-- THE GENERAL STATEMENT.  For every plan in C10's domain for the retry count (`wfPlanReached`: a unit that is
 answered — validly or by a datagram shorter than a packet header — had at most `retries` timeout-class failures before, a
-unit that is given up had exactly `retries + 1`; asked of the units the query reaches), whatever follows the plan's
+unit that is given up had exactly `retries + 1`; what a failed attempt — or the attempt that meets the malformed datagram —
+still receives of the unit's reply is nothing or an incomplete selection of its fragments; asked of the units the query
+reaches), whatever follows the plan's
 deliveries in the script (`restQ`) and the plan's flags in the send-fault vector (`restF`), the query returns the outcome
 the property prescribes (`faultyExpected`: the first unit that does not end with the server's reply decides — its error if
 it is the info unit or enforced, an absent section if it is only tried; otherwise the fault-free response), and the
@@ -52,8 +57,9 @@ theorem C10_valve_query_faulty (ext : Ext) (port retries : Nat) (cfg : Config) (
   query_faulty ext port retries cfg st hwf hx hdec.1 hdec.2.1 hdec.2.2 ai ap ar hai hap har hfit plan hplan restQ restF
 
 /-- (a) RECOVERY.  `fi`, `fp`, `fr` are the failed attempts (any number ≤ `retries` for every unit that is gathered;
-each a silence or a failed send after any number of answered challenge rounds) placed before the valid exchange of
-the info / players / rules unit.  The query returns exactly `Spec.expected cfg st` — by `C02_whole*` the result with no
+each a silence or a failed send after any number of answered challenge rounds, the silence possibly after some — not
+all — of the fragments of the unit's split reply, in any order: `Attempt.wf`) placed before the valid exchange of
+the info / players / rules unit.  Nothing of an abandoned attempt (its fragments, its split id) shows in the result.  The query returns exactly `Spec.expected cfg st` — by `C02_whole*` the result with no
 faults; the datagrams sent are the attempts of the plan, unit after unit; and the number of attempts of each unit seen on
 the wire (initial requests of that unit; the challenges must not make a challenged request look like the initial one:
 `freshChallenges`) is its number of failed attempts + 1. -/
@@ -63,6 +69,9 @@ theorem C10_valve_query_recovers (ext : Ext) (port retries : Nat) (cfg : Config)
     (har : ar.Perm (rulesDatagrams cfg st)) (hfit : fits (scriptAs cfg ai ap ar) = true)
     (fi fp fr : List Attempt) (hki : fi.length ≤ retries)
     (hkp : cfg.gather.players ≠ .skip → fp.length ≤ retries) (hkr : cfg.gather.rules ≠ .skip → fr.length ≤ retries)
+    (hwi : ∀ a ∈ fi, a.wf (infoDatagrams cfg st) = true)
+    (hwp : cfg.gather.players ≠ .skip → ∀ a ∈ fp, a.wf (playersDatagrams cfg st) = true)
+    (hwr : cfg.gather.rules ≠ .skip → ∀ a ∈ fr, a.wf (rulesDatagrams cfg st) = true)
     (restQ : List Delivery) (restF : List Bool) :
     let plan : Plan := ⟨⟨fi, .valid⟩, ⟨fp, .valid⟩, ⟨fr, .valid⟩⟩
     let out := Valve.query ext port cfg.engine cfg.gather retries
@@ -73,15 +82,16 @@ theorem C10_valve_query_recovers (ext : Ext) (port retries : Nat) (cfg : Config)
     ∧ (∀ u ∈ reached, toggleOf cfg u ≠ .skip → freshChallenges u (exchangeOf cfg u) = true →
         attemptsOf u (sentOf out.2.log) = (plan.unit u).fails.length + 1) := by
   intro plan out reached
-  have hplan : wfPlan retries cfg plan = true := by
-    simp only [wfPlan, wfUnit, plan, Bool.and_eq_true, Bool.or_eq_true, decide_eq_true_eq, beq_iff_eq]
-    refine ⟨⟨hki, ?_⟩, ?_⟩
+  have hplan : wfPlan retries cfg st plan = true := by
+    simp only [wfPlan, wfUnit, plan, Bool.and_eq_true, Bool.or_eq_true, decide_eq_true_eq, beq_iff_eq,
+      List.all_eq_true]
+    refine ⟨⟨⟨hwi, hki⟩, ?_⟩, ?_⟩
     · by_cases h : cfg.gather.players = .skip
       · exact Or.inl h
-      · exact Or.inr (hkp h)
+      · exact Or.inr ⟨hwp h, hkp h⟩
     · by_cases h : cfg.gather.rules = .skip
       · exact Or.inl h
-      · exact Or.inr (hkr h)
+      · exact Or.inr ⟨hwr h, hkr h⟩
   have herr : ∀ u, toggleOf cfg u ≠ .skip → (plan.unit u).error = none := by
     intro u _
     cases u <;> rfl
@@ -112,7 +122,7 @@ theorem C10_valve_query_exhausted (ext : Ext) (port retries : Nat) (cfg : Config
     (hai : ai.Perm (infoDatagrams cfg st)) (hap : ap.Perm (playersDatagrams cfg st))
     (har : ar.Perm (rulesDatagrams cfg st)) (hfit : fits (scriptAs cfg ai ap ar) = true)
     (plan : Plan) (u : Request)
-    (hplan : ∀ v ∈ earlier u ++ [u], toggleOf cfg v ≠ .skip → wfUnit retries (plan.unit v) = true)
+    (hplan : ∀ v ∈ earlier u ++ [u], toggleOf cfg v ≠ .skip → wfUnit retries (poolOf cfg st v) (plan.unit v) = true)
     (hearlier : ∀ v ∈ earlier u, toggleOf cfg v ≠ .skip → (plan.unit v).ending = .valid)
     (hu : (plan.unit u).ending = .gaveUp) (henf : toggleOf cfg u = .enforce)
     (happ : u ≠ .info → appIdOk cfg.engine cfg.gather st.info.appid = true)
@@ -132,8 +142,9 @@ theorem C10_valve_query_exhausted (ext : Ext) (port retries : Nat) (cfg : Config
   rw [faultyExpected_stops cfg st plan u _ hearlier' (error_of_gaveUp hu) henf happ] at h1
   rw [faultySends_stops cfg st plan u _ hearlier' (error_of_gaveUp hu) henf happ] at h2
   have hlen : (plan.unit u).fails.length = retries + 1 := by
-    have : wfUnit retries (plan.unit u) = true := hplan u (by simp) (by rw [henf]; decide)
-    simpa [wfUnit, hu] using this
+    have : wfUnit retries (poolOf cfg st u) (plan.unit u) = true := hplan u (by simp) (by rw [henf]; decide)
+    simp only [wfUnit, hu, Bool.and_eq_true, beq_iff_eq] at this
+    exact this.2
   have hnd : (earlier u ++ [u]).Nodup := by cases u <;> decide
   refine ⟨h1, ?_, h2, ?_, ?_⟩
   · show out.1 = _ ∨ out.1 = _
@@ -173,7 +184,7 @@ theorem C10_valve_query_failed_try (ext : Ext) (port retries : Nat) (cfg : Confi
     (hwf : wf cfg st = true) (hx : wfExchanges cfg = true) (hdec : DecodersAgree ext cfg st) (ai ap ar : List Bytes)
     (hai : ai.Perm (infoDatagrams cfg st)) (hap : ap.Perm (playersDatagrams cfg st))
     (har : ar.Perm (rulesDatagrams cfg st)) (hfit : fits (scriptAs cfg ai ap ar) = true)
-    (plan : Plan) (hplan : wfPlan retries cfg plan = true) (u : Request)
+    (plan : Plan) (hplan : wfPlan retries cfg st plan = true) (u : Request)
     (hothers : ∀ v, v ≠ u → toggleOf cfg v ≠ .skip → (plan.unit v).ending = .valid)
     (hu : (plan.unit u).ending ≠ .valid) (htry : toggleOf cfg u = .try_) (restQ : List Delivery) (restF : List Bool) :
     let out := Valve.query ext port cfg.engine cfg.gather retries
@@ -201,7 +212,8 @@ theorem C10_valve_query_failed_try (ext : Ext) (port retries : Nat) (cfg : Confi
     attemptsOf_sendsOf cfg plan u hfresh reached hnd, if_pos ⟨hmem, by rw [htry]; decide⟩]
 
 /-- (c) A MALFORMED REPLY IS NOT RETRIED.  Some attempt of unit `u` (after any number ≤ `retries` of timed-out attempts,
-and after any number `j` of answered challenge rounds) receives a datagram `m` the packet parser rejects — ANY datagram
+after any number `j` of answered challenge rounds and after any incomplete selection `got` of the fragments of the unit's
+split reply) receives a datagram `m` the packet parser rejects — ANY datagram
 shorter than the 5 bytes of a packet header (`wfPlan`), whatever its bytes; `u` is the info unit or enforced, the
 gathered units before it are eventually answered.  Whatever `retries` is, the unit ends at once: the query fails with
 `PacketUnderflow` (not a timeout-class error), the malformed attempt is the last thing sent — no further request of that
@@ -211,10 +223,10 @@ theorem C10_valve_query_malformed_not_retried (ext : Ext) (port retries : Nat) (
     (hwf : wf cfg st = true) (hx : wfExchanges cfg = true) (hdec : DecodersAgree ext cfg st) (ai ap ar : List Bytes)
     (hai : ai.Perm (infoDatagrams cfg st)) (hap : ap.Perm (playersDatagrams cfg st))
     (har : ar.Perm (rulesDatagrams cfg st)) (hfit : fits (scriptAs cfg ai ap ar) = true)
-    (plan : Plan) (u : Request) (j : Nat) (m : Bytes)
-    (hplan : ∀ v ∈ earlier u ++ [u], toggleOf cfg v ≠ .skip → wfUnit retries (plan.unit v) = true)
+    (plan : Plan) (u : Request) (j : Nat) (got : List Bytes) (m : Bytes)
+    (hplan : ∀ v ∈ earlier u ++ [u], toggleOf cfg v ≠ .skip → wfUnit retries (poolOf cfg st v) (plan.unit v) = true)
     (hearlier : ∀ v ∈ earlier u, toggleOf cfg v ≠ .skip → (plan.unit v).ending = .valid)
-    (hu : (plan.unit u).ending = .malformed j m) (henf : toggleOf cfg u = .enforce)
+    (hu : (plan.unit u).ending = .malformed j got m) (henf : toggleOf cfg u = .enforce)
     (happ : u ≠ .info → appIdOk cfg.engine cfg.gather st.info.appid = true)
     (restQ : List Delivery) (restF : List Bool) :
     let out := Valve.query ext port cfg.engine cfg.gather retries
@@ -267,7 +279,7 @@ def C10_valve_demoRun (ext : Ext) (port retries : Nat) (plan : Plan) (restQ : Li
 
 /-- one lost info reply (silence at the initial request) and one lost CHALLENGED players request (the server answers the
 challenge round, the reply to the challenged request is lost) -/
-def C10_valve_demoPlanA : Plan := ⟨⟨[⟨0, false⟩], .valid⟩, ⟨[⟨1, false⟩], .valid⟩, ⟨[], .valid⟩⟩
+def C10_valve_demoPlanA : Plan := ⟨⟨[⟨0, false, []⟩], .valid⟩, ⟨[⟨1, false, []⟩], .valid⟩, ⟨[], .valid⟩⟩
 
 
 -- (a) 12 deliveries instead of 9, the result is the state, 2 attempts of info and of players on the wire
@@ -282,8 +294,8 @@ example (ext : Ext) (port : Nat) :
     ∧ attemptsOf .rules (sentOf (C10_valve_demoRun ext port 2 C10_valve_demoPlanA).2.log) = 1 := by
   have h := C10_valve_query_recovers ext port 2 C02_whole_demoCfg C02_whole_demoState (by decide) (by decide)
     (C10_valve_decoders_uncompressed ext _ _ (by decide)) _ _ _ (List.Perm.refl _) (List.Perm.refl _)
-    (List.Perm.refl _) (by decide) [⟨0, false⟩] [⟨1, false⟩] [] (by decide) (fun _ => by decide) (fun _ => by decide)
-    [] []
+    (List.Perm.refl _) (by decide) [⟨0, false, []⟩] [⟨1, false, []⟩] [] (by decide) (fun _ => by decide)
+    (fun _ => by decide) (by decide) (fun _ => by decide) (fun _ => by decide) [] []
   have he : expected C02_whole_demoCfg C02_whole_demoState
       = .ok ⟨C02_whole_demoState.info, some C02_whole_demoState.players, some C02_whole_demoState.rules⟩ := by decide
   simp only at h
@@ -296,9 +308,11 @@ example (ext : Ext) (port : Nat) :
 
 /-- the enforced players unit times out three times: at the initial request; on a failed send of the challenged
 request; on silence after the challenge round -/
-def C10_valve_demoPlanB : Plan := ⟨⟨[], .valid⟩, ⟨[⟨0, false⟩, ⟨1, true⟩, ⟨1, false⟩], .gaveUp⟩, ⟨[], .valid⟩⟩
+def C10_valve_demoPlanB : Plan :=
+  ⟨⟨[], .valid⟩, ⟨[⟨0, false, []⟩, ⟨1, true, []⟩, ⟨1, false, []⟩], .gaveUp⟩, ⟨[], .valid⟩⟩
 /-- the same ending on the failed send -/
-def C10_valve_demoPlanB' : Plan := ⟨⟨[], .valid⟩, ⟨[⟨0, false⟩, ⟨1, false⟩, ⟨1, true⟩], .gaveUp⟩, ⟨[], .valid⟩⟩
+def C10_valve_demoPlanB' : Plan :=
+  ⟨⟨[], .valid⟩, ⟨[⟨0, false, []⟩, ⟨1, false, []⟩, ⟨1, true, []⟩], .gaveUp⟩, ⟨[], .valid⟩⟩
 
 -- (b) PacketReceive after exactly 3 attempts, no rules request — whatever follows in the script (here: a further
 -- silence and the valid players reply the server would still have sent); ending on the failed send: PacketSend
@@ -319,7 +333,7 @@ example (ext : Ext) (port : Nat) (restQ : List Delivery) :
 
 /-- a failed send after both info challenge rounds, then the rules unit (tried) times out three times -/
 def C10_valve_demoPlanT : Plan :=
-  ⟨⟨[⟨2, true⟩], .valid⟩, ⟨[], .valid⟩, ⟨[⟨0, false⟩, ⟨0, true⟩, ⟨0, false⟩], .gaveUp⟩⟩
+  ⟨⟨[⟨2, true, []⟩], .valid⟩, ⟨[], .valid⟩, ⟨[⟨0, false, []⟩, ⟨0, true, []⟩, ⟨0, false, []⟩], .gaveUp⟩⟩
 
 -- (b) for a unit that is only tried: the response lacks the rules
 example (ext : Ext) (port : Nat) :
@@ -334,7 +348,7 @@ example (ext : Ext) (port : Nat) :
   rw [← he]; exact h.1
 
 /-- one failed send, then the info unit receives the 2-byte datagram FF FF after both challenge rounds -/
-def C10_valve_demoPlanM : Plan := ⟨⟨[⟨0, true⟩], .malformed 2 [0xFF, 0xFF]⟩, ⟨[], .valid⟩, ⟨[], .valid⟩⟩
+def C10_valve_demoPlanM : Plan := ⟨⟨[⟨0, true, []⟩], .malformed 2 [] [0xFF, 0xFF]⟩, ⟨[], .valid⟩, ⟨[], .valid⟩⟩
 
 -- (c) with retries = 3: PacketUnderflow at once, 2 attempts of info in all (4 datagrams), nothing else
 example (ext : Ext) (port : Nat) :
@@ -343,8 +357,62 @@ example (ext : Ext) (port : Nat) :
     ∧ (sentOf (C10_valve_demoRun ext port 3 C10_valve_demoPlanM).2.log).length = 4 := by
   have h := C10_valve_query_malformed_not_retried ext port 3 C02_whole_demoCfg C02_whole_demoState (by decide) (by decide)
     (C10_valve_decoders_uncompressed ext _ _ (by decide)) _ _ _ (List.Perm.refl _) (List.Perm.refl _)
-    (List.Perm.refl _) (by decide) C10_valve_demoPlanM .info 2 [0xFF, 0xFF] (by decide) (by decide) rfl rfl
+    (List.Perm.refl _) (by decide) C10_valve_demoPlanM .info 2 [] [0xFF, 0xFF] (by decide) (by decide) rfl rfl
     (fun h => absurd rfl h) [] []
+  refine ⟨h.1, h.2.2.2 (by decide), ?_⟩
+  have h2 := h.2.2.1
+  unfold C10_valve_demoRun
+  rw [h2]
+  decide
+
+/-! ### a reply that stops half way: the info reply of the demo server travels as 3 fragments -/
+
+/-- the fragments of the info reply -/
+def C10_valve_demoInfo : List Bytes := infoDatagrams C02_whole_demoCfg C02_whole_demoState
+
+/-- first attempt: both challenge rounds answered, then the fragments 2 and 0 of the info reply arrive (in that order),
+fragment 1 never does; second attempt: nothing after the initial request.  Then the server answers. -/
+def C10_valve_demoPlanH : Plan :=
+  ⟨⟨[⟨2, false, (C10_valve_demoInfo.drop 2) ++ (C10_valve_demoInfo.take 1)⟩, ⟨0, false, []⟩], .valid⟩,
+    ⟨[], .valid⟩, ⟨[], .valid⟩⟩
+
+-- (a) the two fragments are really delivered (2 + 2 + 1 + 1 + the 9 of the fault-free exchange = 15 deliveries), the
+-- result is the state, 3 attempts of info on the wire
+example (ext : Ext) (port : Nat) :
+    C10_valve_demoInfo.length = 3
+    ∧ (faultyScript C02_whole_demoCfg C10_valve_demoPlanH (infoDatagrams C02_whole_demoCfg C02_whole_demoState)
+      (playersDatagrams C02_whole_demoCfg C02_whole_demoState) (rulesDatagrams C02_whole_demoCfg C02_whole_demoState)).length = 15
+    ∧ (C10_valve_demoRun ext port 2 C10_valve_demoPlanH).1
+        = .ok ⟨C02_whole_demoState.info, some C02_whole_demoState.players, some C02_whole_demoState.rules⟩
+    ∧ attemptsOf .info (sentOf (C10_valve_demoRun ext port 2 C10_valve_demoPlanH).2.log) = 3 := by
+  have h := C10_valve_query_recovers ext port 2 C02_whole_demoCfg C02_whole_demoState (by decide) (by decide)
+    (C10_valve_decoders_uncompressed ext _ _ (by decide)) _ _ _ (List.Perm.refl _) (List.Perm.refl _)
+    (List.Perm.refl _) (by decide)
+    [⟨2, false, (C10_valve_demoInfo.drop 2) ++ (C10_valve_demoInfo.take 1)⟩, ⟨0, false, []⟩] [] [] (by decide)
+    (fun _ => by decide) (fun _ => by decide) (by decide) (fun _ => by decide) (fun _ => by decide) [] []
+  have he : expected C02_whole_demoCfg C02_whole_demoState
+      = .ok ⟨C02_whole_demoState.info, some C02_whole_demoState.players, some C02_whole_demoState.rules⟩ := by decide
+  simp only at h
+  obtain ⟨h1, _, h3⟩ := h
+  refine ⟨by decide, by decide, ?_, ?_⟩ <;> unfold C10_valve_demoRun C10_valve_demoPlanH
+  · rw [← he]; exact h1
+  · exact h3 .info (by decide) (by decide) (by decide)
+
+/-- the info unit: one attempt that gets all fragments but the last and then silence, then an attempt that gets the first
+fragment and then the 2-byte datagram FF FF -/
+def C10_valve_demoPlanHM : Plan :=
+  ⟨⟨[⟨2, false, C10_valve_demoInfo.take 2⟩], .malformed 2 (C10_valve_demoInfo.take 1) [0xFF, 0xFF]⟩,
+    ⟨[], .valid⟩, ⟨[], .valid⟩⟩
+
+-- (c) with retries = 3: PacketUnderflow at once, 2 attempts of info in all (6 datagrams), nothing else — whatever follows
+example (ext : Ext) (port : Nat) (restQ : List Delivery) :
+    (C10_valve_demoRun ext port 3 C10_valve_demoPlanHM restQ).1 = .err .packetUnderflow
+    ∧ attemptsOf .info (sentOf (C10_valve_demoRun ext port 3 C10_valve_demoPlanHM restQ).2.log) = 2
+    ∧ (sentOf (C10_valve_demoRun ext port 3 C10_valve_demoPlanHM restQ).2.log).length = 6 := by
+  have h := C10_valve_query_malformed_not_retried ext port 3 C02_whole_demoCfg C02_whole_demoState (by decide) (by decide)
+    (C10_valve_decoders_uncompressed ext _ _ (by decide)) _ _ _ (List.Perm.refl _) (List.Perm.refl _)
+    (List.Perm.refl _) (by decide) C10_valve_demoPlanHM .info 2 (C10_valve_demoInfo.take 1) [0xFF, 0xFF] (by decide)
+    (by decide) rfl rfl (fun h => absurd rfl h) restQ []
   refine ⟨h.1, h.2.2.2 (by decide), ?_⟩
   have h2 := h.2.2.1
   unfold C10_valve_demoRun
